@@ -10,3 +10,10 @@ package config
 //@ func GetPathAbsoluteToWorkspaceRoot(path) (r)
 //@   pure
 //@   ensures [join_root] r == pathJoin(Global.WorkspaceRoot, path)
+
+// C08/C02: the workspace identity used in cache names is a function of the workspace root path only (a hash of it and its
+// base name); wsCachePrefix names that function.
+//@ func GetWorkspaceCachePrefix(workspaceDir) (r)
+//@   trusted
+//@   pure
+//@   ensures [function_of_workspace_root] r == wsCachePrefix(workspaceDir)
